@@ -24,7 +24,7 @@ META = {
 }
 
 
-def taint_reaches(an, fn, expr, node, param, sanitizer, depth=0, seen=None):
+def taint_reaches(an, fn, expr, node, param, sanitizer, depth=0, seen=None, ast_sanitizer=None):
     """Can the value of parameter *param* reach expr other than through a sanitizer call?
     Returns the offending sub-expression or None."""
     seen = seen if seen is not None else set()
@@ -41,7 +41,7 @@ def taint_reaches(an, fn, expr, node, param, sanitizer, depth=0, seen=None):
             nd = payload[-1] if not isinstance(payload[-1], (int, type(None))) else node
             if isinstance(sub, ast.AST) and id(sub) not in seen:
                 seen.add(id(sub))
-                r = taint_reaches(an, fn, sub, nd if hasattr(nd, "kind") else node, param, sanitizer, depth + 1, seen)
+                r = taint_reaches(an, fn, sub, nd if hasattr(nd, "kind") else node, param, sanitizer, depth + 1, seen, ast_sanitizer)
                 if r is not None:
                     return r
             continue
@@ -53,6 +53,8 @@ def taint_reaches(an, fn, expr, node, param, sanitizer, depth=0, seen=None):
         if isinstance(payload, ast.Call):
             nodes = g.nodes_for(payload)
             if nodes and sanitizer(an.targets(fn, nodes[0])):
+                continue
+            if ast_sanitizer is not None and ast_sanitizer(payload):
                 continue
         for child in ast.iter_child_nodes(payload):
             if isinstance(child, ast.keyword):
@@ -67,7 +69,7 @@ def taint_reaches(an, fn, expr, node, param, sanitizer, depth=0, seen=None):
                     while p is not None and p is not payload:
                         if isinstance(p, ast.Call):
                             nn = g.nodes_for(p)
-                            if nn and sanitizer(an.targets(fn, nn[0])):
+                            if (nn and sanitizer(an.targets(fn, nn[0]))) or (ast_sanitizer is not None and ast_sanitizer(p)):
                                 inner_call = p
                                 break
                         p = getattr(p, "_parent", None)
@@ -75,7 +77,7 @@ def taint_reaches(an, fn, expr, node, param, sanitizer, depth=0, seen=None):
                         continue
                     from engine.defuse import reaching_defs
                     at = reaching_defs(fn).node_of(nm) or node
-                    r = taint_reaches(an, fn, nm, at, param, sanitizer, depth + 1, seen)
+                    r = taint_reaches(an, fn, nm, at, param, sanitizer, depth + 1, seen, ast_sanitizer)
                     if r is not None:
                         return payload
     return None
